@@ -3,7 +3,7 @@
    the correspondence run, not verified); schema conformance of all fields is an oracle. *)
 From Coq Require Import Lia Permutation Sorted.
 From RM Require Import Gen.C15Fmt.
-From RM Require Import C15.Model C15.Schema C15.Widths C15.Utf8 C15.Pretty C15.Proofs C15.Proofs2 C15.Proofs3 C15.Proofs4 C15.Proofs5 C15.Proofs6 C15.Proofs7 C15.Scalar C15.Proofs8 C15.Proofs9 C15.Regs C15.Proofs10 C15.Consistent C15.Proofs11 C15.Proofs12 C15.Proofs13 C15.Offsets C15.Proofs14 C15.KeyOrder C15.Proofs15.
+From RM Require Import C15.Model C15.Schema C15.Widths C15.Utf8 C15.Pretty C15.Proofs C15.Proofs2 C15.Proofs3 C15.Proofs4 C15.Proofs5 C15.Proofs6 C15.Proofs7 C15.Scalar C15.Proofs8 C15.Proofs9 C15.Regs C15.Proofs10 C15.Consistent C15.Proofs11 C15.Proofs12 C15.Proofs13 C15.Offsets C15.Proofs14 C15.KeyOrder C15.Proofs15 C15.Proofs16.
 Open Scope Z_scope.
 
 (* Escaping is total and correct: every JSON value — arbitrary nesting, arbitrary integers,
@@ -619,6 +619,16 @@ Proof.
   intros p s j Hk Hj Hw. rewrite (report_pure p s Hw) in Hj. inversion Hj; subst j. exact (report_keys_sorted s Hk).
 Qed.
 Print Assumptions c15_keys_sorted.
+
+(* strictly sorted names are pairwise distinct: c15_keys_sorted therefore also says that NO object of the report — at any depth, also inside the
+   free-form soft_errors value — repeats a member name, and [keys_hyp] implies the register-name clause of wf_state *)
+Theorem c15_sorted_unique :
+  (forall l, sorted_strict l = true -> nodupb l = true) /\
+  (forall s, keys_hyp s = true -> nodupb (map (fun r : list Z * Z * nat => fst (fst r)) (s_registers s)) = true).
+Proof.
+  split; [exact sorted_nodup|]. intros s H. unfold keys_hyp in H. apply andb_prop in H. apply sorted_nodup. exact (proj1 H).
+Qed.
+Print Assumptions c15_sorted_unique.
 
 Theorem c15_keys_sorted_rejects :
   keys_sorted (JObj [([98], JNull); ([97], JNull)]) = false /\ keys_sorted (JObj [([97], JNull); ([97], JNull)]) = false /\
